@@ -14,6 +14,9 @@ CHECKS = {
  "C09": dict(text="Exact-rational LP model with certificate checkers proved sound in Coq for all dimensions (weak duality: check_opt => feasible and optimal; Farkas: check_infeasible => no feasible point; certified lp_solve; uniqueness of the optimal value, which is what warm = cold means; verified tolerant feasibility check). The real solver's status/objective/point are judged on every case by those verified, extracted functions (status vs exact status, objective within tolerance of the exact optimum, returned point through feasible_tol, reported objective = c.x, warm vs cold).",
              note=TB + "PARTIAL: the f64/LU arithmetic of lpsolver/* is not modelled (the model is an exact simplex, not a mirror of the pivoting), so the tie is a judged differential, not an operational correspondence; numerical error cannot be exhibited by the model. Three known-finding classes (phase1, warmstart, ratio_test) are listed in known_findings.txt.",
              tech="Coq proofs of LP certificate soundness (weak duality, Farkas) + extracted verified judge applied to the implementation's outputs", ref="6/C09"),
+ "C13": dict(text="Coq theorems by induction on view terms, all integer scales/offsets (incl. 0 and negatives), all domains: the view's min/max are the least/greatest image of the domain; try_set_min/max on the view keeps exactly the values whose image satisfies the bound, fails iff none, reports a change iff the domain shrank; smart constructors (times sign dispatch) and the derived postings (sub, lt, gt, ge) denote what they say. Tied to views.rs through hook H1: exhaustive shapes to depth 2 (quick) / 3 (thorough) + random, judged by an independent python oracle.",
+             note=TB + "Integer views only (float views are part of the C12-float/C06 work). The TimesPos rounding defect D6 was repaired in /repo (fix commit 1749b6d) and the model reflects the repaired code.",
+             tech="Coq induction over view terms (exact bound transformation) + differential through hook H1", ref="6/C13"),
  "C11": dict(text="Refinement theorem (Coq, all histories, all universes): every SparseSet operation sequence incl. stack-disciplined save/restore agrees with a plain mathematical set on every observation; tied to sparse_set.rs by an exhaustive small-scope + seeded random differential of the extracted model against the real SparseSet.",
              note=TB + "Known class D7 (restore after an element-adding union_with) is excluded by hypothesis and refuted by witness; i32/u32 are unbounded Z/nat in the model.",
              tech="Coq refinement proof (sparse set -> mathematical set, induction over op lists) + extracted-model/implementation differential", ref="6/C11"),
